@@ -6,6 +6,7 @@ import (
 	"fmt"
 	"math"
 	"math/big"
+	"math/rand"
 	"os"
 	"runtime/debug"
 	"sort"
@@ -203,6 +204,85 @@ func (c *engineCtx) buildPositions(sol nextroute.Solution, vehicle int, args []s
 	return unit, sp, nil
 }
 
+// queryBest compares Solution.BestMove with a brute-force enumeration through the
+// public constructor NewMoveStops: every vehicle, every order listed for the unit
+// (uorder lines: all orders the precedence allows), every non-decreasing gap tuple
+// that keeps direct pairs (of this and of other units) adjacent.
+func (c *engineCtx) queryBest(id string, step int, sol nextroute.Solution, unit nextroute.SolutionPlanStopsUnit) {
+	if unit.IsPlanned() {
+		fmt.Fprintf(out, "%s %d Q best planned\n", id, step)
+		return
+	}
+	key := unitKey(unit.ModelPlanUnit())
+	orders := c.orders[key]
+	bruteExec := false
+	bruteMin := math.Inf(1)
+	count, allowedCount := 0, 0
+	for v, veh := range sol.Vehicles() {
+		route := veh.SolutionStops()
+		L := len(route)
+		// gaps that split an existing direct pair
+		split := make([]bool, L)
+		for g := 1; g < L; g++ {
+			if c.direct[[2]int{route[g-1].ModelStop().Index(), route[g].ModelStop().Index()}] {
+				split[g] = true
+			}
+		}
+		for _, order := range orders {
+			n := len(order)
+			gaps := make([]int, n)
+			var rec func(k, lo int)
+			rec = func(k, lo int) {
+				if k == n {
+					args := make([]string, 0, 2*n)
+					for i, s := range order {
+						args = append(args, strconv.Itoa(s), strconv.Itoa(gaps[i]))
+					}
+					_, sp, err := c.buildPositions(sol, v, args)
+					if err != nil {
+						return
+					}
+					mv, err := nextroute.NewMoveStops(unit, sp)
+					if err != nil {
+						return
+					}
+					count++
+					if mv.IsExecutable() {
+						allowedCount++
+						bruteExec = true
+						if mv.Value() < bruteMin {
+							bruteMin = mv.Value()
+						}
+					}
+					return
+				}
+				for g := lo; g < L; g++ {
+					if split[g] {
+						continue
+					}
+					if k > 0 && c.direct[[2]int{order[k-1], order[k]}] && g != gaps[k-1] {
+						continue
+					}
+					gaps[k] = g
+					rec(k+1, g)
+				}
+			}
+			rec(0, 1)
+		}
+	}
+	bm := sol.BestMove(context.Background(), unit)
+	bv := "-"
+	if bm.IsExecutable() {
+		bv = num(bm.Value())
+	}
+	mn := "-"
+	if bruteExec {
+		mn = num(bruteMin)
+	}
+	fmt.Fprintf(out, "%s %d Q best exec %v value %s brute exec %v min %s enumerated %d allowed %d stops %d\n",
+		id, step, bm.IsExecutable(), bv, bruteExec, mn, count, allowedCount, len(unit.SolutionStops()))
+}
+
 func runEngine(b block) {
 	defer func() {
 		if r := recover(); r != nil {
@@ -334,7 +414,7 @@ func runEngine(b block) {
 					break
 				}
 				if fs[1] == "planchecked" {
-					fmt.Fprintf(out, "%s %d move executable %v value %s\n", b.id, step, mv.IsExecutable(), num(mv.Value()))
+					fmt.Fprintf(out, "%s %d move executable %v\n", b.id, step, mv.IsExecutable())
 				}
 				ok, err := mv.Execute(context.Background())
 				switch {
@@ -366,6 +446,62 @@ func runEngine(b block) {
 				if k < len(c.solutions) {
 					c.cur = k
 				}
+				fmt.Fprintf(out, "%s %d result done\n", b.id, step)
+			case "q_seqs":
+				si, _ := strconv.Atoi(fs[2])
+				ms, _ := c.model.Stop(si)
+				unit := sol.SolutionPlanStopsUnit(ms.PlanStopsUnit())
+				saved := sol.Random()
+				for seed := int64(1); seed <= 8; seed++ {
+					_ = sol.SetRandom(rand.New(rand.NewSource(seed)))
+					quit := make(chan struct{})
+					var seqs []string
+					for sq := range nextroute.SequenceGeneratorChannel(unit, quit) {
+						ids := make([]string, len(sq))
+						for i, st := range sq {
+							ids[i] = strconv.Itoa(st.ModelStop().Index())
+						}
+						seqs = append(seqs, strings.Join(ids, "-"))
+					}
+					close(quit)
+					sort.Strings(seqs)
+					fmt.Fprintf(out, "%s %d Q seqs seed %d : %s\n", b.id, step, seed, strings.Join(seqs, " "))
+				}
+				_ = sol.SetRandom(saved)
+				fmt.Fprintf(out, "%s %d result done\n", b.id, step)
+			case "q_gens":
+				// q_gens <vehicle> s1 s2 ... (the order)
+				v, _ := strconv.Atoi(fs[2])
+				var order nextroute.SolutionStops
+				for _, x := range fs[3:] {
+					si, _ := strconv.Atoi(x)
+					ms, _ := c.model.Stop(si)
+					order = append(order, sol.SolutionStop(ms))
+				}
+				unit := order[0].PlanStopsUnit()
+				var outs []string
+				if !unit.IsPlanned() && v < len(sol.Vehicles()) {
+					nextroute.SolutionMoveStopsGeneratorTest(sol.Vehicles()[v], unit, func(mv nextroute.SolutionMoveStops) {
+						sps := mv.StopPositions()
+						gaps := make([]string, len(sps))
+						last := -1
+						for i := len(sps) - 1; i >= 0; i-- {
+							if sps[i].Next().IsPlanned() {
+								last = sps[i].Next().Position()
+							}
+							gaps[i] = strconv.Itoa(last)
+						}
+						outs = append(outs, strings.Join(gaps, ","))
+					}, order, nextroute.NewPreAllocatedMoveContainer(unit), func() bool { return false })
+				}
+				sort.Strings(outs)
+				fmt.Fprintf(out, "%s %d gens %s\n", b.id, step, strings.Join(outs, " "))
+				fmt.Fprintf(out, "%s %d result done\n", b.id, step)
+			case "q_best":
+				si, _ := strconv.Atoi(fs[2])
+				ms, _ := c.model.Stop(si)
+				unit := sol.SolutionPlanStopsUnit(ms.PlanStopsUnit())
+				c.queryBest(b.id, step, sol, unit)
 				fmt.Fprintf(out, "%s %d result done\n", b.id, step)
 			case "snapall":
 				fmt.Fprintf(out, "%s %d result done\n", b.id, step)
